@@ -424,6 +424,8 @@ func (a *analyzer) chanProtocol(class string, s *chanSite, closes []*chanSite, o
 	}
 	why := "no recognised protocol: "
 	switch {
+	case len(closes) > 0 && closes[0].fn == s.fn && a.sendAfterClose(s.fn, class):
+		why += "a send is reachable after the close in the same function"
 	case len(s.held) == 0:
 		why += "the send runs without a mutex, the sender is not the closer, and it is not joined before the close (a flag tested before the send does not help: test and send are not atomic against the close)"
 	case len(common) == 0:
